@@ -293,8 +293,11 @@ func ThrowOnContextCancel[T any]() func(Observable[T]) Observable[T] {
 			)
 
 			return func() {
+				// close(done) must run even when a teardown upstream panics: otherwise the
+				// watcher goroutine above stays blocked until the context is canceled.
+				defer close(done)
+
 				sub.Unsubscribe()
-				close(done)
 			}
 		})
 	}
